@@ -185,6 +185,22 @@ CLAIMED = {
         "note": "Both sides read /usr/share/zoneinfo. DST overlaps are not asserted (docs silent). datediff, localtime2gmt and %U %W %G %V are not yet covered. nanosecond functions only inside int64 nanoseconds (1678-2262).",
         "design_ref": "DESIGN.md section 4 C16",
     },
+    "C19": {
+        "level": "fault_enumeration",
+        "engine": "pbt-cli+sysfault",
+        "technique": "fault injection over generated cases: complete enumeration of crash points (SIGKILL at every file-mutating syscall via a ptrace supervisor) and errno injection, with a directory-state invariant as oracle; Hypothesis generates the cases",
+        "text": ("Hypothesis-generated -I cases (1-4 files, dkvp/csv/json, 0 to 2500 records = several write calls, gzip/zlib inputs, modes 0600-0755, 9 verbs "
+                 "incl. NR/FNR, begin/end, head) x every file-mutating syscall of the run as listed by tools/sysfault.c (one global counter over all threads): "
+                 "SIGKILL on entry and on exit (complete per case up to 60 calls, first/last 25 beyond), ENOSPC/EIO/EBUSY/EACCES/EPERM injected at each call "
+                 "(normal error path: non-zero exit, mlr: diagnostic, no temp left), named crash sites of the -tags verif build per file and per written "
+                 "record, generated normal-path failures (malformed CSV/JSON, typed-assignment and -x errors, unwritable redirect, CSV schema change in file j "
+                 "record k), refusals (URLs, prepipes, bzip2, -n). Invariant after every run: each file holds exactly its original or exactly its complete new "
+                 "content (gz/z: valid stream, compared decompressed), files updated strictly in argument order, at most one leftover; success: file == non -I "
+                 "output for that file alone, mode preserved, compressed inputs rewritten compressed."),
+        "note": ("Crash = process death; durability across power loss (no fsync before rename) is not observable from user space and outside the statement. Needs ptrace; "
+                 "if refused at run time the two syscall-level sub-checks are skipped and counted and the named-site sub-check still runs. asserting_* aborts are documented exits and not asserted for temp cleanup."),
+        "design_ref": "DESIGN.md section 4 C19",
+    },
 }
 
 NOT_YET = "check not built yet in this session (see DESIGN.md section 8 build order); will be claimed when its sub-checks run"
